@@ -21,7 +21,7 @@ RULE = ("scenarios = channel (4 writer-lock kinds x 3 reader modes x requested c
         "of tagged messages that force wrap-around and FULL, one reader), array blocking queue (capacity 1..4, 1..3 "
         "producers, 1..3 consumers) and double buffer (capacity 1..4, blocking and non-blocking, 1..3 writers), each "
         "under seeded random schedules (context-switch density 20/50/80/95 %, weak-CAS spurious failure 0/30 %, condvar "
-        "spurious wake-up 0/20 %) and hand-written list schedules, run on the real code under the deterministic "
+        "spurious wake-up 0/20 %), hand-written list schedules and model-guided list schedules (walks of the extracted model that reach the proofs' case-split windows), run on the real code under the deterministic "
         "scheduler; every trace is replayed on the extracted model (trace acceptance) and checked by the independent "
         "monitor; non-trivial = the trace contains a FULL result, a cursor wrap-around, a futex/condvar sleep or a "
         "contended lock; distinct = distinct trace text")
@@ -35,7 +35,9 @@ ASSUMPTIONS = ["channel: exactly one reader thread; MUGGLE_CHANNEL_FLAG_WRITE_SI
 EVIDENCE_NOTES = [
     "writer lock: modelled CONCRETELY inside the channel model (coq/C01/Model.v re-uses the lock sub-automaton of coq/C04/Model.v: tas/yield for spinlock.c, weak CAS incl. spurious failure + futex wait/wake for synclock.c as repaired, pthread mutex = blocking ownership), so the lock events of the trace (tas/casw/fwait/fwake/clear/store/mlock/munlock) are model labels and need no mapping in the OCaml acceptor; mutual exclusion of the serialised region (i_excl, i_free) and the view hand-over through the lock stamp (v_lst, v_serial) are part of the C01 invariants and proved again here rather than imported from C04",
     "proved for every schedule, any number of writers, any capacity (1 and 2 included), all 4 x 3 modes, with the memory orders re-extracted from the code: chan_inv_reachable (A.5 SC invariant: cursors = history lengths mod capacity, unread <= capacity-2, slots hold accepted minus delivered, one writer in the serialised region, cached cursor interval), chan_inv_views_reachable (view invariants: through the write_cursor stamp in sync/busy modes, through read_mutex in the mutex mode), chan_exactly_once_in_order (delivered is a prefix of accepted, equal when drained), chan_per_writer_order (same-writer messages appear with increasing sequence numbers in accepted and delivered), chan_full_only_if_full, chan_no_overwrite, chan_payload_visible (no uncovered plain read; the message about to be returned is accepted and its payload write is in the reader's view); abq_fifo and dbuf_batches_in_order (any number of producers/consumers/writers, any capacity, spurious wake-ups); Examples of non-vacuity next to each (chan_nonvacuous, chan_mutex_nonvacuous, abq_nonvacuous, dbuf_nonvacuous)",
-    "PARTIAL / not theorems: the array blocking queue / double buffer models carry no views (all accesses are inside plain segments executed under the one mutex), their payload hand-over is checked by the happens-before monitor on every trace; dbuf 'FULL only when the back buffer is full' and freedom from lost wake-ups (C03) are covered by the monitor and trace acceptance, not by theorems here",
+    "array blocking queue and double buffer carry views as well (mutex stamp, slot and payload versions, ghost uncovered-read counters): abq_payload_visible, dbuf_payload_visible (no uncovered plain read; the item / batch entry about to be consumed was put / written and its payload write is in the consumer's view) and dbuf_full_only_if_full (a write is refused or put to sleep only when the back buffer holds capacity items, the reader sleeps only when it is empty; ghost check computed from the histories) are theorems for every schedule, any number of threads, any capacity",
+    "model-guided schedules (DESIGN.md 4.3): the guide mode of ocaml/c01_driver.ml explores the extracted channel model with biased random walks and emits the walks that reach the proofs' case-split windows (w1 reader commits read_cursor between a writer's cursor load and its full check / slot store; w2 reader loads write_cursor between slot store and publication; w3 cached read cursor refreshed in busy mode; w4 publication wraps write_cursor to 0 leaving capacity-2 unread; w5 a writer publishes between the reader's check and its futex sleep) as 'sched list' schedules; the generator adds them in both tiers and the tally reports, from the IMPLEMENTATION traces, how many guided schedules went through each window (guided_window_w1..w5, guided_target_hit) next to the counts over all schedules (window_w1..w5)",
+    "not theorems: freedom from lost wake-ups (property C03) is covered by the monitor and trace acceptance only",
     "chan_mo_necessary (coq/C01/ProofsView.v): with the store of write_cursor relaxed the model delivers the slot's previous content (NULL) under a concrete schedule, with the code's orders the same schedule delivers the message",
     "spurious condvar wake-ups (scheduler line 'W <tid> cvspur') are a model transition; ocaml/c01_driver.ml therefore carries its own copy of the shared acceptor (accept_trace_w) that replays W lines instead of echoing them; ocaml/vsacc.ml.inc is unchanged",
     "observation (not a violation): capacities 1 and 2 give a permanently full channel (usable slots = rounded capacity - 2), as the property's quantifier text says; the writer's relaxed load of read_cursor leaves the previous lap's slot read and the new slot write formally unordered under C11 (no SC interleaving shows a wrong value)",
@@ -203,6 +205,7 @@ def generate(rng, tier):
                         cases.append(_chan("chan-%s-%s-%d-%d-%d" % (wk, rm, cap, nw, n), wk, rm, cap, ks,
                                            "rand %d %d %d %d" % (rng.below(1 << 30), stick, spur, cvspur)))
                         n += 1
+    cases += _guided_cases(rng, tier)
     qreps = 60 if tier == "quick" else 1500
     for i in range(qreps):
         cap = rng.range(1, 4)
@@ -219,6 +222,113 @@ def generate(rng, tier):
         sched = "rand %d %d 0 %d" % (rng.below(1 << 30), rng.choice([20, 50, 80, 95]), rng.choice([0, 20]))
         cases.append(_dbuf("dbuf-%d" % i, cap, rng.below(2), ks, sched))
     return cases
+
+
+WINDOWS = {
+    "w1": "reader commits read_cursor while a writer is between its load of read_cursor and its full check / slot store",
+    "w2": "reader loads write_cursor while a writer is between its slot store and the publication",
+    "w3": "busy mode: cached read cursor refreshed",
+    "w4": "publication wraps write_cursor to 0 and leaves capacity-2 messages unread",
+    "w5": "a writer publishes while the reader is between its check and its futex sleep",
+}
+
+
+def _guided_cases(rng, tier):
+    """Model-guided schedules (DESIGN.md 4.3): the extracted model is explored (guide mode of
+    ocaml/c01_driver.ml) for walks that reach the proofs' case-split windows; the walks are
+    replayed on the real code as list schedules."""
+    exe = os.path.join(V.BUILD, ID, "model_driver")
+    if not os.path.exists(exe):
+        return []
+    reps = 1 if tier == "quick" else 8
+    reqs = []
+    n = 0
+    for wk in WKINDS:
+        for rm in RMODES:
+            targets = {"sync": ["w1", "w2", "w4", "w5"], "busy": ["w1", "w2", "w3", "w4"], "mutex": ["w4"]}[rm]
+            for target in targets:
+                for rep in range(reps):
+                    cap = rng.choice([3, 5]) if target != "w4" else 3
+                    nw = 1 if wk == "single" else rng.range(2, 3)
+                    c2 = next_pow2(cap)
+                    per = (c2 + 1 + nw - 1) // nw      # enough messages to wrap the ring and to refresh the cached cursor
+                    ks = [rng.range(per, per + 1) for _ in range(nw)]
+                    scen = "chan %s %s %d %d %s" % (wk, rm, cap, sum(ks), " ".join(map(str, ks)))
+                    reqs.append((V.Case("guide-%d" % n, [scen, "guide %d %s 400" % (rng.below(1 << 30), target)]), scen, target, wk, rm))
+                    n += 1
+    res = V.run_batch(exe, [r[0] for r in reqs], per_case_timeout=10.0)
+    out = []
+    for c, scen, target, wk, rm in reqs:
+        r = res.get(c.name)
+        if not r or r["status"] != "ok":
+            continue
+        sched = [ln for ln in r["lines"] if ln.startswith("sched list ")]
+        hits = [ln for ln in r["lines"] if ln.startswith("hits")]
+        if not sched or len(sched[0]) > 3900:
+            continue
+        out.append(V.Case("guided-%s-%s-%s-%s" % (target, wk, rm, c.name[6:]), [scen, sched[0]],
+                          {"scen": scen, "target": target, "model_hits": hits[0].split()[1:] if hits else []}))
+    return out
+
+
+def windows_of_trace(case, lines):
+    """Which case-split windows the IMPLEMENTATION trace went through (independent of the model)."""
+    scen = case.lines[0].split()
+    if scen[0] != "chan":
+        return set()
+    rm, cap = scen[2], next_pow2(int(scen[3]))
+    usable = max(0, cap - 2)
+    hit = set()
+    after_load = {}      # writer -> True between its load of read_cursor and its next event
+    last_p = {}          # thread -> index of its last P line
+    reader_loads = []    # indices of reader loads of write_cursor
+    published = consumed = 0
+    results, calls = {}, {}
+    for ln in lines:
+        w = ln.split()
+        if w and w[0] == "R" and w[2] in ("ok", "full", "err"):
+            results.setdefault(w[1], []).append(w[2])
+    for i, ln in enumerate(lines):
+        w = ln.split()
+        if not w:
+            continue
+        if w[0] == "P":
+            last_p[w[1]] = i
+        elif w[0] == "E":
+            t, op, cell = w[1], w[2], w[3]
+            if t != "0":
+                was = after_load.pop(t, False)
+                if op == "load" and cell == "rcur":
+                    after_load[t] = True
+                    if rm == "busy":
+                        hit.add("w3")
+                del was
+            if t == "0" and op == "store" and cell == "rcur":
+                consumed += 1
+                if any(after_load.values()):
+                    hit.add("w1")
+            if t == "0" and op == "load" and cell == "wcur":
+                reader_loads.append(i)
+            if op == "store" and cell == "wcur":
+                published += 1
+                p = last_p.get(t, -1)
+                if any(p < j < i for j in reader_loads):
+                    hit.add("w2")
+                if w[5] == "0" and usable > 0 and published - consumed == usable:
+                    hit.add("w4")
+            if t == "0" and op == "fwait" and cell == "wcur" and w[7] == "0":
+                hit.add("w5")
+            if rm == "mutex" and cell == "rmx" and op == "munlock":
+                if t == "0":
+                    consumed += 1
+                else:
+                    k = calls.get(t, 0)
+                    calls[t] = k + 1
+                    if k < len(results.get(t, [])) and results[t][k] == "ok":
+                        published += 1
+                        if published % cap == 0 and usable > 0 and published - consumed == usable:
+                            hit.add("w4")
+    return hit
 
 
 def search(rng, diverging, tier):
@@ -666,6 +776,16 @@ def nontrivial_key(case, lines):
 
 def tally(dist, case, lines):
     scen = case.lines[0].split()
+    if scen[0] == "chan":
+        guided = case.name.startswith("guided-")
+        if guided:
+            dist["guided_schedules"] = dist.get("guided_schedules", 0) + 1
+        for wn in sorted(windows_of_trace(case, lines)):
+            dist["window_%s" % wn] = dist.get("window_%s" % wn, 0) + 1
+            if guided:
+                dist["guided_window_%s" % wn] = dist.get("guided_window_%s" % wn, 0) + 1
+        if guided and case.meta.get("target") in windows_of_trace(case, lines):
+            dist["guided_target_hit"] = dist.get("guided_target_hit", 0) + 1
     k = scen[0] + ("-%s-%s" % (scen[1], scen[2]) if scen[0] == "chan" else "")
     dist[k] = dist.get(k, 0) + 1
     dist["events"] = dist.get("events", 0) + sum(1 for ln in lines if ln.startswith("E "))
